@@ -201,6 +201,23 @@ fn search_props(prop: &str, tier: &str, seed: u64, threads: usize, out: &str) {
                     }
                 }
             }
+            // Edge comparison (== on the endpoints, order on the value) over all pairs of iterated edges; Deref
+            for k in 0..3 {
+                l.push(format!("new {k} {}", k as i64 - 1));
+            }
+            for (u, v, e) in [(0, 1, 0), (0, 1, 2), (0, 2, 1), (1, 0, 1), (1, 2, 2), (2, 2, 0), (0, 1, 1)] {
+                l.push(format!("connect {u} {v} {e}"));
+            }
+            for u in 0..3 {
+                l.push(format!("nv {u}"));
+                for i in 0..5 {
+                    for v in 0..3 {
+                        for j in 0..5 {
+                            l.push(format!("ecmp {u} {i} {v} {j}"));
+                        }
+                    }
+                }
+            }
             l
         });
     }
@@ -466,7 +483,7 @@ fn canon_c15(req: &str, out: &str, relaxed_dump: bool) -> String {
             v.sort();
             v.join("|")
         }
-        "g.ser" => match serde_json::from_str::<(Vec<(usize, i64)>, Vec<(usize, usize, u32)>)>(out) {
+        "g.ser" | "g.serraw" => match serde_json::from_str::<(Vec<(usize, i64)>, Vec<(usize, usize, u32)>)>(out) {
             Ok((mut n, mut e)) => {
                 n.sort();
                 e.sort();
@@ -523,6 +540,10 @@ fn c15_props(tier: &str, seed: u64, threads: usize, out: &str) {
                                 l.extend(gen_search::requests("C06", a, &g, false, Some(&mut rng)).into_iter().take(40));
                                 l.push("cmp 1 2 1 3".into());
                                 l.push("cmp 1 2 2 2".into());
+                                for _ in 0..6 {
+                                    l.push(format!("ecmp {} {} {} {}", rng.below(g.n), rng.below(3), rng.below(g.n), rng.below(3)));
+                                    l.push(format!("nv {}", rng.below(g.n)));
+                                }
                                 l
                             }
                             5 => { let nk = 2 + rng.below(5); gen_cont::cont_history(&mut rng, a, &id, nk, 60) }
@@ -557,6 +578,9 @@ fn c15_props(tier: &str, seed: u64, threads: usize, out: &str) {
                         for j in 0..oa.len().max(ob.len()) {
                             let (x, y) = (oa.get(j).cloned().unwrap_or("<missing>".into()), ob.get(j).cloned().unwrap_or("<missing>".into()));
                             let req = pa.get(j).cloned().unwrap_or_default();
+                            if x == "unsupported" || y == "unsupported" {
+                                continue; // API of one member only: outside "calls common to both"
+                            }
                             if canon_c15(&req, &x, relaxed) != canon_c15(&req, &y, relaxed) {
                                 ctx.fail(&lines[0], j.saturating_sub(1), "c15", format!("`{}`: {a} gives `{}` but {b} gives `{}`", req, x, y));
                                 break;
